@@ -5,6 +5,9 @@ package main
 // kernels are assembly and cannot be interpreted from SSA).
 
 import (
+	"math"
+	"strconv"
+	"strings"
 	"go/types"
 	"reflect"
 	"fmt"
@@ -423,4 +426,65 @@ func (e *Exec) nativeBig(fn *ssa.Function, args []Value) (Value, bool) {
 		tv[i] = conv(out[i], res.At(i).Type())
 	}
 	return tv, true
+}
+
+// decimalFromString is shopspring/decimal.NewFromString on a concrete string
+// (the package initialiser parses a dozen constants of hundreds of digits; one
+// character at a time through the interpreter that costs ~50k steps per path).
+// The logic follows decimal.go:NewFromString.
+func (e *Exec) decimalFromString(fn *ssa.Function, value string) Value {
+	original := value
+	decT := fn.Signature.Results().At(0).Type()
+	fail := func(msg string) Value {
+		return TupleV{e.zero(decT), e.newError(msg, nil)}
+	}
+	var exp int64
+	if i := strings.IndexAny(value, "Ee"); i != -1 {
+		x, err := strconv.ParseInt(value[i+1:], 10, 32)
+		if err != nil {
+			if ne, ok := err.(*strconv.NumError); ok && ne.Err == strconv.ErrRange {
+				return fail(fmt.Sprintf("can't convert %s to decimal: fractional part too long", value))
+			}
+			return fail(fmt.Sprintf("can't convert %s to decimal: exponent is not numeric", value))
+		}
+		value = value[:i]
+		exp = x
+	}
+	p := -1
+	for i := 0; i < len(value); i++ {
+		if value[i] == '.' {
+			if p > -1 {
+				return fail(fmt.Sprintf("can't convert %s to decimal: too many .s", value))
+			}
+			p = i
+		}
+	}
+	intString := value
+	if p != -1 {
+		if p+1 < len(value) {
+			intString = value[:p] + value[p+1:]
+		} else {
+			intString = value[:p]
+		}
+		exp -= int64(len(value[p+1:]))
+	}
+	n := new(big.Int)
+	if len(intString) <= 18 {
+		x, err := strconv.ParseInt(intString, 10, 64)
+		if err != nil {
+			return fail(fmt.Sprintf("can't convert %s to decimal", value))
+		}
+		n.SetInt64(x)
+	} else if _, ok := n.SetString(intString, 10); !ok {
+		return fail(fmt.Sprintf("can't convert %s to decimal", value))
+	}
+	if exp < math.MinInt32 || exp > math.MaxInt32 {
+		return fail(fmt.Sprintf("can't convert %s to decimal: fractional part too long", original))
+	}
+	d := e.zero(decT).(StructV)
+	np := e.newBig(fn, e.ctx.BVConst(bigW, 0))
+	e.bigSetNative(np, n)
+	d[0] = np
+	d[1] = e.intConst(32, exp)
+	return TupleV{d, IfaceV{}}
 }
